@@ -184,6 +184,48 @@ fn address_cases(ctx: &Ctx, st: &mut Stats) {
             }
         }
     }
+    // ranges that reach the last row / last column: printers have a short form for whole
+    // columns and rows (A:A, 1:1), which must only be used for exactly those ranges
+    for (ci, (cr, cc)) in ctx_cells.iter().enumerate() {
+        let ctx_cell = CellReferenceRC { sheet: "Sheet1".into(), row: *cr, column: *cc };
+        for start in [1, 2, cr - 1, *cr, cr + 1, cr + 2] {
+            if !(1..=1048576).contains(&start) {
+                continue;
+            }
+            for flags in 0..16 {
+                let (ar1, ac1, ar2, ac2) = (flags & 1 == 1, flags & 2 == 2, flags & 4 == 4, flags & 8 == 8);
+                for col in [1, 3] {
+                    let text = format!("{}:{}", a1(start, col, ar1, ac1), a1(1048576, col + 1, ar2, ac2));
+                    if start == 1 {
+                        continue; // a genuine whole-column range has its own canonical text (A:B)
+                    }
+                    let want = AddrWant { sheet: 0, cells: vec![(start, col, ar1, ac1), (1048576, col + 1, ar2, ac2)] };
+                    st.evaluations += 1;
+                    if let Some(d) = check_address(&text, &ctx_cell, &want) {
+                        st.violation("address", "address|to-last-row|".into(), d, json!({"kind": "address", "text": text, "row": cr, "column": cc}));
+                        return;
+                    }
+                    st.shape(format!("to-last-row:flags{flags}:ctx{ci}"));
+                }
+            }
+        }
+        for start in [1, 2, cc - 1, *cc, cc + 1, cc + 2] {
+            if !(1..=16384).contains(&start) || start == 1 {
+                continue;
+            }
+            for flags in 0..16 {
+                let (ar1, ac1, ar2, ac2) = (flags & 1 == 1, flags & 2 == 2, flags & 4 == 4, flags & 8 == 8);
+                let text = format!("{}:{}", a1(2, start, ar1, ac1), a1(3, 16384, ar2, ac2));
+                let want = AddrWant { sheet: 0, cells: vec![(2, start, ar1, ac1), (3, 16384, ar2, ac2)] };
+                st.evaluations += 1;
+                if let Some(d) = check_address(&text, &ctx_cell, &want) {
+                    st.violation("address", "address|to-last-column|".into(), d, json!({"kind": "address", "text": text, "row": cr, "column": cc}));
+                    return;
+                }
+                st.shape(format!("to-last-column:flags{flags}:ctx{ci}"));
+            }
+        }
+    }
     st.sample(json!({"address_text": "'My Sheet'!$XFD$1048576", "context": "R7C3", "forms": ["A1", "R1C1"]}));
 }
 
